@@ -894,6 +894,63 @@ def _real_model_op(aln, op):
     return _real_apply(aln, op, aln.moltype.label)
 
 
+def _view_state(aln):
+    """per row: the map and the SeqView record under the Sequence (start, stop, step, seq_len, parent string), displayed data"""
+    res = []
+    for s in aln.seqs:
+        v = s.data._seq
+        res.append(dict(name=s.name, gp=[int(x) for x in s.map.gap_pos], cum=[int(x) for x in s.map.cum_gap_lengths],
+                        pl=int(s.map.parent_length), start=int(v.start), stop=int(v.stop), step=int(v.step),
+                        seq_len=int(v.seq_len), parent=str(v.seq), str=str(s.data)))
+    return res
+
+
+VIEW_PLANS = [["slice", "rc", "slice", "?rc", "?slice"], ["rc", "slice", "?slice", "?rc"], ["slice", "slice", "rc", "?slice"],
+              ["rc", "rc", "slice"]]
+
+
+def _view_correspondence(ctx, out, rng):
+    """the VIEW-level row model of theorem view_history_refines (Model/AlnView.lean: rowSliceV / rowRcV = IndelMap x the C01
+    sequence view) against the real Aligned rows: after every slice / rc of a history the map AND the SeqView record
+    (start, stop, step, seq_len, parent string) under each row's Sequence, plus the displayed data"""
+    cases = []
+    for it in range(ctx.budget(250, 4000)):
+        mt, rows, shape = _shaped_aln(rng) if rng.random() < 0.6 else (*_rand_aln(rng), "random")
+        if mt not in ("dna", "rna"):
+            mt = rng.choice(["dna", "rna"])
+            rows = {nm: "".join(c if c == "-" else rng.choice(CANON[mt]) for c in v) for nm, v in rows.items()}
+        ops, _ = _build_history(rng, mt, rows, VIEW_PLANS[it % len(VIEW_PLANS)], only=("slice", "rc"))
+        if ops:
+            cases.append((mt, rows, ops))
+    models = ctx.driver.batch([("view_history", dict(moltype=mt, rows=[[k, v] for k, v in rows.items()], ops=ops))
+                               for mt, rows, ops in cases])
+    for (mt, rows, ops), model in zip(cases, models):
+        inp = dict(moltype=mt, rows=rows, ops=ops, level="view")
+        if "error" in model:
+            add_failure(out, "corr", "driver error (view_history)", inp, None, model, confirmed=False)
+            continue
+        aln = _mk(rows, mt, False)
+        real = [_view_state(aln)]
+        for op in ops:
+            try:
+                aln = aln[op[1] : op[2]] if op[0] == "slice" else aln.rc()
+                real.append(_view_state(aln))
+            except Exception as e:
+                real.append({"err": type(e).__name__})
+                break
+        out["evaluations"] += len(real)
+        bump(out, "view_history_depth", len(ops))
+        for op in ops:
+            bump(out, "view_op", op[0])
+        got = model["rows"][: len(real)]
+        if got != real:
+            i = next((j for j, (x, y) in enumerate(zip(got, real)) if x != y), min(len(got), len(real)))
+            add_failure(out, "corr", f"view-level row (map + SeqView record) differs after op #{i} ({ops[i - 1][0] if i else 'construct'})",
+                        dict(inp, ops=ops[:i]), got[i] if i < len(got) else None, real[i] if i < len(real) else None, confirmed=False)
+        elif len(real) > 2 and any("-" in v for v in rows.values()) and any(r["step"] < 0 for r in real[-1] if isinstance(real[-1], list)):
+            out["nontrivial"].add(("view", mt, str(rows), str(ops)))
+
+
 def correspondence(ctx):
     out = new_outcome(
         "Lean row model (IndelMap x displayed string per row) vs real Alignment rows after every op of random histories "
@@ -904,7 +961,8 @@ def correspondence(ctx):
         "indices (motif_length 1 and 3) and the to_type round trip are in the model too; filtered / no_degenerates / omit_gap_pos "
         "(motif_length 1-3) are in the model as `filter_mask` (the predicate is evaluated by the harness on the string columns, "
         "the model mirrors the run-length FeatureMap + joined_segments path of Alignment and the column take of "
-        "ArrayAlignment); dense rows vs ArrayAlignment. compared: each "
+        "ArrayAlignment); dense rows vs ArrayAlignment; the VIEW-level row model of view_history_refines (IndelMap x C01 "
+        "sequence view: start/stop/step/seq_len/parent string under every row) on slice/rc histories. compared: each "
         "row's (gap_pos, cum_gap_lengths, parent_length, data string), names, to_dict. non-trivial = distinct (alignment, "
         "history) with >= 1 op applied and a gap in some row"
     )
@@ -1043,6 +1101,7 @@ def correspondence(ctx):
             out["nontrivial"].add((mt, str(rows), str(ops)))
         if len(out["samples"]) < 3 and len(ops) >= 3 and isinstance(real_states[-1], list):
             out["samples"].append(dict(moltype=mt, rows=rows, ops=ops, final_row_states=real_states[-1]))
+    _view_correspondence(ctx, out, rng)
     return out
 
 
